@@ -214,17 +214,32 @@ Theorem C18_close_fails_queued_async :
 Proof. exact C18_close_fails_queued_async_l. Qed.
 Print Assumptions C18_close_fails_queued_async.
 
-(* PARTIAL by the code as it is (candidate finding, reported): once batchSendLoop has returned -- also when it returned
-   because the IDLE timer fired (XIdleExit: no drain, the conn is not closed yet) -- no step but the caller's own context
-   touches an asynchronous entry that is (still, or newly) queued: the sender's re-check happened when it enqueued, the
-   drain only runs on the closed exit.  Such a call with a context without deadline never returns.  The closed exit is
-   safe by C18_close_fails_queued_async; the idle exit is the open case (witness ex_async_idle_orphan). *)
-Theorem C18_async_completion_after_loop_exit_partial : forall x c l x', xreach x -> sendloop x = false -> asy x c = true ->
+(* the full statement for the code after fixes 000f10e and e17a7fd: an asynchronous call is never left behind by the send
+   loop.  (1) Whichever way batchSendLoop returns -- client closed, or the idle timer -- it drains the channel and every
+   asynchronous entry queued there gets exactly one error (closed / idle).  (2) The loop is only ever gone when the client
+   is closed or the conn idle, and an asynchronous call that enqueues its entry in such a state is failed at once by the
+   sender's re-check. *)
+Theorem C18_async_never_orphaned :
+  (forall x l x', (l = XSendExit \/ l = XIdleExit) -> xstep x l = Some x' ->
+     chq x' = [] /\ sendloop x' = false
+     /\ (forall c, In c (chq x) -> asy x c = true -> e_st (ent (core x) c) = Queued ->
+           exists e, (e = EClosed \/ e = EIdle) /\ e_comp (ent (core x') c) = e_comp (ent (core x) c) ++ [Err e]
+                     /\ e_st (ent (core x') c) = Retired))
+  /\ (forall x c h p, xreach x -> sendloop x = false -> e_st (ent (core x) c) = Fresh ->
+        exists x' e, xstep x (XSubmit c h p true) = Some x' /\ (e = EClosed \/ e = EIdle)
+                     /\ e_comp (ent (core x') c) = [Err e] /\ e_st (ent (core x') c) = Retired).
+Proof. exact async_never_orphaned. Qed.
+Print Assumptions C18_async_never_orphaned.
+
+(* regression witness for the code before those fixes: once the send loop is gone, NO other step but the caller's own
+   context touches a queued asynchronous entry -- which is why the drains and the re-check are needed (before them such an
+   entry, e.g. one enqueued while the loop returned on its idle timer, was never completed) *)
+Theorem C18_async_queued_untouched_after_loop_exit : forall x c l x', xreach x -> sendloop x = false -> asy x c = true ->
   e_st (ent (core x) c) = Queued -> e_comp (ent (core x) c) = [] -> xstep x l = Some x' ->
   (forall k, l <> XCore (Abort c k)) ->
   ent (core x') c = ent (core x) c /\ sendloop x' = false /\ asy x' c = true.
 Proof. exact async_after_exit. Qed.
-Print Assumptions C18_async_completion_after_loop_exit_partial.
+Print Assumptions C18_async_queued_untouched_after_loop_exit.
 
 (* the connection pool: every batchCommandsClient of every pool generation is a reachable core state (so every theorem
    above holds for it); a call lives in exactly one of them; over the whole pool -- across CloseAddr / idle recycling /
@@ -389,12 +404,13 @@ Example ex_async_after_exit : let x := xget (xrun xinit [XCore Close; XSendExit;
   e_comp (ent (core x) 1) = [Err EClosed] /\ sendloop x = false.
 Proof. vm_compute. auto. Qed.
 
-(* the open case: the send loop exits on the idle timer while an asynchronous entry sits in the channel; the pool is
-   closed later (recycling): the hypotheses of C18_async_completion_after_loop_exit_partial hold, nothing completes it *)
-Example ex_async_idle_orphan : let x := xget (xrun xinit [XSubmit 1 0 0 true; XIdleExit; XCore Close]) in
-  xreach x /\ sendloop x = false /\ asy x 1 = true /\ e_st (ent (core x) 1) = Queued /\ e_comp (ent (core x) 1) = []
-  /\ e_ret (ent (core x) 1) = None /\ xstep x XSendExit = None.
-Proof. split; [exists [XSubmit 1 0 0 true; XIdleExit; XCore Close]; reflexivity|]. vm_compute. auto 10. Qed.
+(* the idle exit after fix e17a7fd: the asynchronous entry sitting in the channel when the send loop returns on its idle
+   timer is failed with the idle error (before the fix it stayed Queued for ever: the pre-fix orphan), and a later
+   asynchronous call on the idle conn is failed at once *)
+Example ex_async_idle_exit : let x := xget (xrun xinit [XSubmit 1 0 0 true; XIdleExit; XSubmit 2 0 0 true; XCore Close]) in
+  xreach x /\ sendloop x = false /\ idle x = true /\ e_comp (ent (core x) 1) = [Err EIdle] /\ e_comp (ent (core x) 2) = [Err EIdle]
+  /\ e_st (ent (core x) 1) = Retired.
+Proof. split; [exists [XSubmit 1 0 0 true; XIdleExit; XSubmit 2 0 0 true; XCore Close]; reflexivity|]. vm_compute. auto 10. Qed.
 
 (* pool: call 1 on connection 0 of generation 0, CloseAddr, call 2 goes to generation 1; call 1 returns the closed error *)
 Definition pget (o : option pstate) : pstate := match o with Some p => p | None => pinit end.
